@@ -12,7 +12,10 @@ THEOREMS = [P + n for n in ("packStr_bytes", "str_enc", "elem_enc", "elems_enc",
            ["Rspirv.Props.C02Typed." + n for n in ("str_T", "elem_T", "elems_T", "operand_T", "literal_T", "many_T", "nested_T",
                                                    "specOp_T", "one_T", "loop_T", "lead_T", "typed_spec", "typed_grammar")] + \
            ["Rspirv.Props.C02TypedInst." + n for n in ("typed_tables", "typedStream_grammar", "C02_typed_spec", "C02_typed",
-                                                       "typeInt_typed")] + \
+                                                       "typeInt_typed", "grammar_typedStream", "delivered_typed")] + \
+           ["Rspirv.Props.C02TypedConv." + n for n in ("str_conv", "elem_conv", "elems_conv", "operand_conv", "literal_conv",
+                                                       "many_conv", "nested_conv", "specOp_conv", "one_conv", "loop_conv",
+                                                       "lead_conv", "spec_typed", "typed_iff")] + \
            ["Rspirv.Props.ParserSpec.parseInst_ref", "Rspirv.Props.ParserSpec.loop_ref"]
 NEEDS = ("header", "core", "decode", "operand_enum", "asm_arms", "parse_operand", "operands")
 
@@ -113,7 +116,7 @@ def run(ctx):
         T, fails = C.translate_all(ctx)
         hok, herr = C.build_harness(ctx, bins=("impl",))
         have = C.need(ctx, *NEEDS)
-        failing = C.prove(ctx, MODULE, THEOREMS, extra_targets=["driver"], files=["Rspirv/Props/C02.lean", "Rspirv/Props/C02Typed.lean", "Rspirv/Props/C02TypedInst.lean", "Rspirv/Model/Typed.lean", "Rspirv/Props/ParserSpec.lean", "Rspirv/Model/Spec.lean", "Rspirv/Model/Assemble.lean", "Rspirv/Model/Parser.lean"]) if have else []
+        failing = C.prove(ctx, MODULE, THEOREMS, extra_targets=["driver"], files=["Rspirv/Props/C02.lean", "Rspirv/Props/C02Typed.lean", "Rspirv/Props/C02TypedInst.lean", "Rspirv/Props/C02TypedConv.lean", "Rspirv/Model/Typed.lean", "Rspirv/Props/ParserSpec.lean", "Rspirv/Model/Spec.lean", "Rspirv/Model/Assemble.lean", "Rspirv/Model/Parser.lean"]) if have else []
     for n, e in failing:
         ctx.issue(f"theorem:{n}", f"Lean obligation no longer checks: {e['msg'][:300]}", witness=e)
     if not hok:
